@@ -633,6 +633,10 @@ func (v Value) Export() (interface{}, error) {
 	return result, nil
 }
 
+// maxTypedSliceNesting is the deepest [][]...[]T that Export derives for an
+// array whose elements share a type.
+const maxTypedSliceNesting = 8
+
 func (v Value) export() interface{} {
 	return v.exportSeen(nil)
 }
@@ -722,6 +726,18 @@ func (v Value) exportSeen(seen map[*object]struct{}) interface{} {
 
 			if state != 1 || kind == reflect.Interface || t == nil {
 				// No common type
+				return result
+			}
+
+			// Every level of nesting derives a new, longer slice type
+			// ([][]...[]T): for a deeply nested array that is one distinct Go type
+			// per level, each with a name as long as its depth - quadratic memory
+			// in the depth. Beyond a few levels the elements stay in []interface{}.
+			nesting := 0
+			for e := t; e.Kind() == reflect.Slice && nesting <= maxTypedSliceNesting; e = e.Elem() {
+				nesting++
+			}
+			if nesting > maxTypedSliceNesting {
 				return result
 			}
 
